@@ -584,6 +584,13 @@ def boundary_transfers(res, direction, tag):
         sb, srv = with_server("%s-%s" % (tag, "s" if single else "m"), shared=True, single=single, ow=True)
         try:
             clients = []
+            # in single-port mode all transfers come from ONE endpoint, one after the other: every
+            # new request must take over the route of the finished one
+            import socket as _s
+            shared_sock = None
+            if single:
+                shared_sock = _s.socket(_s.AF_INET, _s.SOCK_DGRAM)
+                shared_sock.bind((NET.HOST, 0))
             for k, (blk, w) in enumerate([(8, 1), (8, 3), (512, 2), (1468, 1), (65464, 1), (65464, 2), (65463, 1)]):
                 nb, last = (3, 5 if blk == 8 else blk - 1)
                 opts = [("blksize", blk), ("windowsize", w)]
@@ -591,14 +598,27 @@ def boundary_transfers(res, direction, tag):
                     content = X.make_file(nb, blk, last)
                     name = "bt_%d.bin" % k
                     open(os.path.join(sb.send, name), "wb").write(content)
-                    clients.append(X.Download(srv, "%s-b%d-w%d" % (tag, blk, w), name.encode(), content, opts=opts))
+                    clients.append(("d", "%s-b%d-w%d" % (tag, blk, w), name.encode(), content, opts))
                 else:
                     name = "bt_up_%d.bin" % k
-                    clients.append(X.Upload(srv, "%s-b%d-w%d" % (tag, blk, w), name.encode(), nb, last, opts=opts,
-                                            target=os.path.join(sb.recv, name)))
-            for c in clients:
-                c.sock.setsockopt(__import__("socket").SOL_SOCKET, __import__("socket").SO_RCVBUF, 4 << 20)
-                events += X.run_clients(srv, [c])
+                    clients.append(("u", "%s-b%d-w%d" % (tag, blk, w), name.encode(), (nb, last), opts))
+            for kind, label, name, what, opts in clients:
+                if kind == "d":
+                    c = X.Download(srv, label, name, what, opts=opts, sock=shared_sock)
+                else:
+                    c = X.Upload(srv, label, name, what[0], what[1], opts=opts, target=os.path.join(sb.recv, name.decode()), sock=shared_sock)
+                c.sock.setsockopt(_s.SOL_SOCKET, _s.SO_RCVBUF, 4 << 20)
+                c.start()
+                while not c.done:
+                    c.step()
+                X.server_outcomes(srv, [c])
+                events += c.events
+                if shared_sock is None:
+                    c.close()
+                else:
+                    c.wire_from = set()
+            if shared_sock is not None:
+                shared_sock.close()
         finally:
             drop_server(sb, srv)
     return events
